@@ -38,9 +38,14 @@ package utils
 //@ func (*utils.ErrorReader).Error -> e
 //@ props C11
 //@ ensures e == r.err
+//@ define ewTok(data) = ite(tag(data) == tagof(uint8), le8(unbox(uint8, data)), ite(tag(data) == tagof(uint16), le16(unbox(uint16, data)), ite(tag(data) == tagof(uint64), le64(unbox(uint64, data)), ite(tag(data) == tagof(int64), le64(u64of(unbox(int64, data))), string(unbox([]uint8, data))))))
+//@ define ewSupported(data) = tag(data) == tagof(uint8) || tag(data) == tagof(uint16) || tag(data) == tagof(uint64) || tag(data) == tagof(int64) || tag(data) == tagof([]uint8)
 //@ func (*utils.ErrorWriter).Write
 //@ props C11
-//@ inline
+//@ requires w.buf != nil
+//@ assigns w.err, BufC, BufStore
+//@ ensures old(w.err) != nil ==> (w.err == old(w.err) && BufC == old(BufC) && BufStore == old(BufStore))
+//@ ensures (old(w.err) == nil && ewSupported(data)) ==> (w.err == nil && BufC == store(old(BufC), ref(w.buf), old(BufC)[ref(w.buf)] + old(ewTok(data))) && BufStore == store(old(BufStore), ref(w.buf), BufStore[ref(w.buf)]))
 //@ func (*utils.ErrorReader).Read
 //@ props C11
 //@ inline
